@@ -236,6 +236,88 @@ type Ctl struct {
 	FaultFn func(store, op, key string, nth int) bool
 
 	Gate *Gate // nil: calls run freely
+
+	// HoldFn, when set, selects calls that block until Release(key) (the
+	// "delay" wrapper: completion order of chosen calls under driver control).
+	HoldFn func(store, op, key string) bool
+	held   map[string]*heldCall
+	hcond  *sync.Cond
+}
+
+type heldCall struct {
+	release chan struct{}
+	done    chan struct{}
+}
+
+func (c *Ctl) holdInit() {
+	if c.hcond == nil {
+		c.hcond = sync.NewCond(&c.mu)
+		c.held = map[string]*heldCall{}
+	}
+}
+
+// hold blocks the calling store call if HoldFn selects it. Returns the
+// record to signal on completion (nil when not held).
+func (c *Ctl) hold(store, op, key string) *heldCall {
+	c.mu.Lock()
+	if c.HoldFn == nil || !c.HoldFn(store, op, key) {
+		c.mu.Unlock()
+		return nil
+	}
+	c.holdInit()
+	h := &heldCall{release: make(chan struct{}), done: make(chan struct{})}
+	c.held[op+" "+key] = h
+	c.hcond.Broadcast()
+	c.mu.Unlock()
+	<-h.release
+	return h
+}
+
+// WaitHeld waits until a call (op, key) is being held.
+func (c *Ctl) WaitHeld(op, key string, d time.Duration) bool {
+	c.mu.Lock()
+	defer c.mu.Unlock()
+	c.holdInit()
+	deadline := time.Now().Add(d)
+	timer := time.AfterFunc(d, func() { c.mu.Lock(); c.hcond.Broadcast(); c.mu.Unlock() })
+	defer timer.Stop()
+	for c.held[op+" "+key] == nil {
+		if time.Now().After(deadline) {
+			return false
+		}
+		c.hcond.Wait()
+	}
+	return true
+}
+
+// Release lets a held call proceed and waits for it to complete.
+func (c *Ctl) Release(op, key string, d time.Duration) bool {
+	c.mu.Lock()
+	c.holdInit()
+	h := c.held[op+" "+key]
+	delete(c.held, op+" "+key)
+	c.mu.Unlock()
+	if h == nil {
+		return false
+	}
+	close(h.release)
+	select {
+	case <-h.done:
+		return true
+	case <-time.After(d):
+		return false
+	}
+}
+
+// ReleaseAll stops holding: every held and future call proceeds.
+func (c *Ctl) ReleaseAll() {
+	c.mu.Lock()
+	c.HoldFn = nil
+	for k, h := range c.held {
+		close(h.release)
+		delete(c.held, k)
+	}
+	c.mu.Unlock()
 }
 
 // Crashed tells whether the client has crashed.
@@ -404,6 +486,11 @@ func (m memReader) WriteTo(w io.Writer) (int64, error) { return m.Reader.WriteTo
 // Get implements storage.Store.
 func (v *View) Get(_ context.Context, key string) (io.ReadCloser, error) {
 	defer v.post()
+	if v.C != nil {
+		if h := v.C.hold(v.Store, "get", key); h != nil {
+			defer close(h.done)
+		}
+	}
 	if _, _, err := v.pre("get", key, false); err != nil {
 		v.failEvent("get", key, err)
 		return nil, err
@@ -523,6 +610,11 @@ func (v *View) put(key string, r io.Reader, excl bool, withCRC bool, crc uint32)
 			faultBytes = v.C.FaultBytes
 		}
 		v.C.mu.Unlock()
+	}
+	if v.C != nil {
+		if h := v.C.hold(v.Store, "put", key); h != nil {
+			defer close(h.done)
+		}
 	}
 	mut, crashAfter, err := v.pre("put", key, true)
 	if err != nil {
